@@ -485,4 +485,46 @@ func runC07(r *Run) {
 	} else {
 		r.Bad("R4", "anchor/ApplyMessageWithConfig", "", "not found")
 	}
+	// ---------- R5 ----------
+	r.Rule("R5", "FLOW.floor-on-paid-fee: on the Cosmos routes the fee that DeductFeeDecorator takes is the tx-fee checker's effective fee; the fee MinGasPriceDecorator compares with gasLimit × MinGasPrice must be that same quantity (derive from a TxFeeChecker call), not only the declared fee — otherwise a transaction whose effective price is below its declared price is accepted while paying less than the floor")
+	isCheckerCall := func(v ssa.Value) bool {
+		c, ok := v.(*ssa.Call)
+		if !ok || c.Call.IsInvoke() || c.Call.StaticCallee() != nil {
+			return false
+		}
+		return namedName(c.Call.Value.Type()) == "TxFeeChecker"
+	}
+	dfn, ok1 := P.FnOK("(app/ante/cosmos.DeductFeeDecorator).AnteHandle")
+	mfn, ok2 := P.FnOK("(app/ante/cosmos.MinGasPriceDecorator).AnteHandle")
+	if !ok1 || !ok2 {
+		r.Bad("R5", "anchor/cosmos fee decorators", "", "DeductFeeDecorator.AnteHandle or MinGasPriceDecorator.AnteHandle not found")
+	} else {
+		paidViaChecker := false
+		nDeduct := 0
+		eachCall(dfn, func(ci CallInfo) {
+			if ci.Name == "deductFee" {
+				nDeduct++
+				if backSlice(argN(ci.Instr, 2)).Any(isCheckerCall) {
+					paidViaChecker = true
+				}
+			}
+		})
+		r.Floor("R5", "deductFee calls in DeductFeeDecorator", nDeduct, 1)
+		if !paidViaChecker {
+			r.OK("R5", fnID(mfn)+"#floor-on-paid-fee", P.Pos(fnPos(mfn)), "the deducted fee is the declared fee (no effective-fee checker in DeductFeeDecorator): declared = paid")
+		} else {
+			okCmp, nCmp := false, 0
+			eachCall(mfn, func(ci CallInfo) {
+				if ci.Name != "IsAnyGTE" {
+					return
+				}
+				nCmp++
+				if backSlice(ci.Instr.Common().Args[0]).Any(isCheckerCall) {
+					okCmp = true
+				}
+			})
+			r.Check(okCmp && nCmp > 0, "R5", fnID(mfn)+"#floor-on-paid-fee", P.Pos(fnPos(mfn)), "the fee compared with the floor derives from the tx-fee checker (the quantity that is deducted)",
+				"MinGasPriceDecorator compares the DECLARED fee with gasLimit × MinGasPrice, but DeductFeeDecorator deducts the fee checker's EFFECTIVE fee (min(baseFee + tip, declared price) × gas): whenever baseFee < MinGasPrice a Cosmos tx with ExtensionOptionDynamicFeeTx{MaxPriorityPrice: 0} is accepted paying less than the floor (nothing at all with NoBaseFee)")
+		}
+	}
 }
